@@ -23,8 +23,16 @@ Proof. exact ConnAbandon.c13_abandon_single. Qed.
 Theorem c13_abandon_search : forall (s : st) (o : nat) (q : list nat) (c : cop) (t : Z) (o' : nat) (c' : cop), fix9 (fx s) = true -> is_running s = true -> opq s = o :: q -> getop s o = Some c -> o_kind c = KAbandon t -> alookup t (rmap s) = None -> alookup t (smap s) = Some o' -> getop s o' = Some c' -> o' <> o -> let s' := step s DrvOp in In (o_mid c, KAbandon t) (wout s') /\ alookup t (rmap s') = None /\ alookup t (smap s') = None /\ ~ In t (inuse s') /\ ~ In (o_mid c) (inuse s') /\ (exists c'' : cop, getop s' o' = Some c'' /\ o_chan c'' = false).
 Proof. exact ConnAbandon.c13_abandon_search. Qed.
 
+Theorem c13_refuted_F25 : c13 (run all_but_25 h25) = false /\ inuse (run all_but_25 h25) = [1] /\ map fst (smap (run all_but_25 h25)) = [1].
+Proof. exact Conn.c13_refuted_F25. Qed.
+
+Theorem c13_repaired_F25 : c13 (run repaired h25) = true /\ inuse (run repaired h25) = [] /\ smap (run repaired h25) = [].
+Proof. exact Conn.c13_repaired_F25. Qed.
+
 Print Assumptions c13_below_wrap.
 Print Assumptions c13_all_schedules_partial.
 Print Assumptions c13_hypotheses_met.
 Print Assumptions c13_abandon_single.
 Print Assumptions c13_abandon_search.
+Print Assumptions c13_refuted_F25.
+Print Assumptions c13_repaired_F25.
